@@ -399,6 +399,26 @@ def precision_histories(ctx):
                 if why:
                     ctx.violation("ivp/mixed-precision/%s" % m, "solve_ivp(%s) of a %s harmonic oscillator on the double-precision grid %g + linspace(0, 2): %s" % (m, sdn, T0, why),
                                   {"method": m, "state": sdn, "T0": T0})
+    # right-hand sides with a limited domain (sqrt, log): a trial step that leaves the domain yields a non-finite error estimate and must
+    # be rejected like any other failed trial; y' = sqrt(1 - y^2), y(0) = 0 has the solution sin t on [0, pi/2)
+    for m in ("rk45", "rk23"):
+        for gname, grid in (("one long interval", [0.0, 1.5]), ("fine start", [0.0, 0.1, 0.2, 1.5]), ("two intervals", [0.0, 1.2, 1.5]), ("long then short", [0.0, 1.45, 1.5])):
+            n += 1
+            ctx.case(key=("ivp-limited-domain", m, gname))
+            why = None
+            try:
+                tsd = torch.tensor(grid, dtype=torch.float64)
+                with TimeLimit(60):
+                    yt = xitorch.integrate.solve_ivp(lambda t_, y_: torch.sqrt(1.0 - y_ * y_), tsd, torch.zeros(1, dtype=torch.float64), method=m, rtol=1e-7, atol=1e-9)
+                err = float((yt[:, 0] - torch.sin(tsd)).abs().max())
+                if not bool(torch.isfinite(yt).all()):
+                    why = "non-finite values returned without any error"
+                elif not err <= 1e-4:
+                    why = "error %.2e against sin t (rtol 1e-7, atol 1e-9; allowed 1e-4)" % err
+            except Exception as e:
+                why = "raised %s: %s" % (type(e).__name__, str(e)[:100])
+            if why:
+                ctx.violation("ivp/limited-domain/%s" % m, "solve_ivp(%s) of y' = sqrt(1 - y^2) on the grid %s (%s): %s" % (m, grid, gname, why), {"method": m, "grid": grid})
     return n
 
 
